@@ -76,6 +76,14 @@ def crash_key(rr, progress):
 
 
 _memo = {}
+_libs = None
+
+
+def stored_libs():
+    global _libs
+    if _libs is None:
+        _libs = json.load(open(os.path.join(core.VERIF, "findings", "C02.json"))).get("libs", {})
+    return _libs
 
 
 def materialise(ctx, case, sub=""):
@@ -86,6 +94,9 @@ def materialise(ctx, case, sub=""):
     os.makedirs(tmp)
     if case.get("files"):
         libgen.write_files(tmp, case["files"])
+    elif case.get("lib"):
+        # witness of a listed finding: the library text is stored once per library in findings/C02.json ("libs")
+        libgen.write_files(tmp, stored_libs()[case["lib"]])
     else:
         natgen.generate(random.Random(case["libseed"]), "liba", n_classes=case.get("n_classes")).write(tmp)
     h = hashlib.sha1()
@@ -119,12 +130,12 @@ def prepare(chk):
     b = core.build("asan")
     core.build("plain")
     wit = [f["case"] for f in chk.findings if f.get("case")]
-    if not wit or os.environ.get("VERIF_C02_NO_PREFETCH"):
+    if not wit or os.environ.get("VERIF_C02_NO_PREFETCH") or "--replay" in sys.argv:
         return
     ctx = chk.ctx()
     libs = {}
     for c in wit:
-        libs.setdefault(json.dumps({x: c.get(x) for x in ("libseed", "n_classes", "cfg", "files")}, sort_keys=True), c)
+        libs.setdefault(json.dumps({x: c.get(x) for x in ("lib", "libseed", "n_classes", "cfg", "files")}, sort_keys=True), c)
     with cf.ThreadPoolExecutor(max(1, min(8, len(libs)))) as ex:
         list(ex.map(lambda c: get_module(ctx, b, dict(c, id="prep-%s" % c["id"])), libs.values()))
     distinct = {}
@@ -246,3 +257,118 @@ def main(chk):
             cases.append(dict(id=len(cases) + 1, libseed=libseed, cfg="native-nomangle", drvseed=rng.randrange(1 << 30),
                               nsteps=chk.pick(300, 1000)))
     chk.run_cases(__name__, cases, workers=min(core.NPROC, chk.pick(6, 6)))
+
+
+# ---------------------------------------------------------------------------------------------------------------
+# maintenance: regenerate findings/C02.json (python3 -m vf.props.c02 regen [quick seeds...]) after natgen / libgen's
+# default output changed.  Soaks the given seeds with the findings list ignored, then looks for a short focused
+# witness (only=<group>) per known key; keys that are not in SUMMARY are printed and must be triaged by hand.
+# ---------------------------------------------------------------------------------------------------------------
+SUMMARY = [
+ ("name-missing:kind=method,alias=keyword", "kw", "a method named None / True / False is exposed as-is instead of _None / _True / _False: pythonKeywords lacks the three constants (fix: proposed_fixes/C02-python-keywords-none-true-false.diff)"),
+ ("name-missing:kind=static,alias=keyword", "kw", "same for a static method named None / True / False (fix: C02-python-keywords-none-true-false.diff)"),
+ ("positive-rejected:exc=TypeError:param=enum-scoped:enum-value=-1", "enum", "a scoped-enum member whose value is -1 is rejected with TypeError: the generated check `_val != -1` takes the value for the error marker of Dtool_EnumValue_AsLong (fix: C02-scoped-enum-value-minus-one.diff)"),
+ ("wrong-exception:got=AttributeError,want=TypeError:param=enum-scoped", "enum", "a non-enum argument for a scoped-enum parameter (or any malformed argument before it) raises AttributeError ('... has no attribute value') instead of TypeError (fix: C02-scoped-enum-value-minus-one.diff)"),
+ ("body-ran-but-raised:exc=OverflowError:arg=int-out-of-range", "single", "single-argument wrappers convert with PyLong_AsLong without checking for failure: an integer beyond long runs the C++ body with -1 and only then raises OverflowError (fix: C02-single-arg-conversion-errors.diff)"),
+ ("returned-with-exception-set:exc=OverflowError:arg=int-out-of-range", "single", "same defect through a slot (obj[i], obj * k, ...): the body runs with -1 and the wrapper returns a result with OverflowError still set, which surfaces at an unrelated later point (fix: C02-single-arg-conversion-errors.diff)"),
+ ("body-ran-but-raised:exc=SystemError:arg=int-out-of-range", "single", "same defect in a property setter: the setter body runs with -1 and setattr fails with SystemError 'returned a result with an exception set' (fix: C02-single-arg-conversion-errors.diff)"),
+ ("wrong-exception:got=SystemError,want=OverflowError:arg=int-out-of-range", "single", "same as above, seen as SystemError instead of OverflowError (fix: C02-single-arg-conversion-errors.diff)"),
+ ("body-ran-but-raised:exc=TypeError:param=float,arg=instance", "single", "single-argument float/double wrappers accept anything PyNumber_Check() accepts and do not check PyFloat_AsDouble: an instance with __int__ only runs the body with -1.0, then TypeError (fix: C02-single-arg-conversion-errors.diff)"),
+ ("returned-with-exception-set:exc=TypeError:args=instance", "single", "float property setters / slots given an instance with __int__ run the body with -1.0 and return success with TypeError still set (fix: C02-single-arg-conversion-errors.diff)"),
+ ("returned-with-exception-set:exc=TypeError:args=instance:binary-operator", "binop", "binary and in-place operator wrappers (nb_add, nb_inplace_add, ...) return NotImplemented while the TypeError raised for the unacceptable operand is still set; Python then runs the fallback (e.g. x + y for x += y) and the stale exception surfaces later (fix: C02-binary-operator-stale-exception.diff)"),
+ ("returned-with-exception-set:exc=OverflowError:arg=int-out-of-range:binary-operator", "single", "obj * k with k beyond long: the operator body runs with -1 and the result is returned with OverflowError set (fix: C02-single-arg-conversion-errors.diff)"),
+ ("body-ran-but-raised:exc=SystemError:param=float,arg=instance", "single", "same in a property setter of floating type given an instance with __int__: the setter body runs with -1.0 and setattr fails with SystemError (fix: C02-single-arg-conversion-errors.diff)"),
+ ("member-changed-on-error:arg=int-out-of-range", "single", "same defect in the generated setter of a published data member: assigning an integer beyond long stores -1 in the member before the error is reported (fix: C02-single-arg-conversion-errors.diff)"),
+ ("wrong-exception:member-set:got=SystemError", "single", "same: the data-member setter returns success with OverflowError set, so setattr fails with SystemError (fix: C02-single-arg-conversion-errors.diff)"),
+ ("state-changed-on-error:kind=method", "single", "consequence of the two above: the object's state changed although the call raised (fix: C02-single-arg-conversion-errors.diff)"),
+ ("body-ran-but-raised:exc=TypeError:arg=int-out-of-range", "single", "same defect inside a converting constructor used for coercion: K(int) runs with -1 for an integer beyond long before the call is rejected (fix: C02-single-arg-conversion-errors.diff)"),
+ ("default-mismatch:param=unsigned long", "literal", "a default argument 18446744073709551615ul reaches the body as 9223372036854775807: integer literals are read with strtol and clamp at LONG_MAX (fix: C02-unsigned-literal-above-long-max.diff)"),
+ ("default-mismatch:param=unsigned long long", "literal", "same for unsigned long long defaults (fix: C02-unsigned-literal-above-long-max.diff)"),
+ ("no-overflowerror:param=unsigned long long", "nocheck", "unsigned long long parameters are parsed with format K, which masks instead of range-checking: -1 or 2**64 run the body with a wrapped value (documented in the source as deliberately unchecked; no fix proposed)"),
+ ("no-overflowerror:param=unsigned long", "nocheck", "unsigned long parameters in multi-argument wrappers are parsed with format k (no overflow check): out-of-range values wrap silently; in an overload set such an overload even takes -1 (as 2**64-1) although f(int) matches exactly (no fix proposed)"),
+ ("no-overflowerror:param=unsigned int", "nocheck", "unsigned int parameters are parsed with format k and only compared with UINT_MAX afterwards: values whose low 64 bits are small (2**70, -2**70) pass (no fix proposed)"),
+ ("wrong-overload:int-taken-as-float-by-earlier-overload", "order", "DESIGN §5-15: overloads are tried in the order (more parameters, higher type rank) first and a Python int is accepted for float/double parameters, so f(1, 2) runs f(int,double,int=5) although f(int,int) matches exactly (no small fix)"),
+ ("positive-rejected:exc=OverflowError:range-check-of-other-overload", "order", "the range check of a small integer parameter raises OverflowError unconditionally, also inside an overload set: f(str, unsigned char) tried first rejects f('', 32767) although f(str, short) accepts it (no fix proposed)"),
+ ("const-argument-passed-as-copy:param=obj:cref", "constcopy", "a const instance passed for a `const K &` parameter of a coercible class (default-constructible, converting constructor) reaches the body as a temporary copy (Dtool_Coerce_K copies const objects), so the callee does not see the object's identity and a returned reference dangles (no small fix)"),
+ ("const-argument-passed-as-copy:param=obj:cptr", "constcopy", "same for `const K *` parameters (no small fix)"),
+ ("const-argument-passed-as-copy:result-dangles", "constcopy", "consequence: a function returning (a pointer into) its const-reference argument returns a pointer to that destroyed temporary copy; the Python result wraps freed stack memory (no small fix)"),
+ ("inherited-comparison-lost", "richcmp", "the tp_richcompare slot is written per class from its own operators only: a derived class that declares any comparison operator (or whose first base has none) no longer reaches operator== / < / ... inherited from a base; Python then falls back to identity comparison, the reflected operator or TypeError (no small fix)"),
+]
+
+
+def _only_for(key, detail, model):
+    import re
+    if key.startswith("name-missing"):
+        return "@names", 0
+    call = detail.get("call", "")
+    if "member" in detail and not call:
+        return "@member", 500
+    if call.startswith("copy.copy"):
+        return "@copy", 200
+    if re.match(r"prop_\d+(=?\(| on|$)", call):
+        return "@property", 400
+    name = call.split("(")[0]
+    if name.startswith("operator "):
+        name = call[:call.index("(", len("operator ") + (2 if call.startswith("operator ()") else 0))]
+    for c in model["classes"]:
+        if c["name"] == name:
+            return "ctor:" + c["qname"], 200
+    return name, 250
+
+
+def regen(seeds):
+    seen, cases = {}, {}
+    for sd in seeds:
+        chk = core.Check("C02", tier="quick", seed=sd, level=LEVEL)
+        chk.findings, chk.open_keys = [], {}
+        main(chk)
+        for k, d, c in chk.violations:
+            cid = (sd, c["id"])
+            cases[cid] = c
+            seen.setdefault(k.replace("C02:", ""), []).append((cid, d))
+        shutil.rmtree(chk.work, ignore_errors=True)
+    known = [k for k, _, _ in SUMMARY]
+    print("keys seen but not in SUMMARY (triage!):", sorted(set(seen) - set(known)))
+    print("keys in SUMMARY not seen (add seeds):", sorted(set(known) - set(seen)))
+    chk = core.Check("C02", tier="quick", seed=1, level=LEVEL)
+    ctx = chk.ctx()
+    weight = {}
+    for k in seen:
+        for cid, _ in seen[k]:
+            weight[cid] = weight.get(cid, 0) + 1
+    findings, used, wid = [], set(), 0
+    for key, _, summary in SUMMARY:
+        ok = False
+        for cid, d in sorted(seen.get(key, []), key=lambda x: (x[0] not in used, -weight[x[0]]))[:6]:
+            rc = cases[cid]
+            only, nsteps = _only_for(key, d, json.loads(rc["files"]["liba.model.json"]))
+            for drvseed in (11, 12, 13):
+                wid += 1
+                case = dict(id="w%d" % wid, libseed=rc["libseed"], n_classes=rc.get("n_classes"), cfg=rc["cfg"],
+                            drvseed=drvseed, nsteps=nsteps, only=only)
+                got = sorted(k for k, _ in _run_case(ctx, case).violations)
+                if key in got and all(g in known for g in got):
+                    findings.append(dict(property="C02", key="C02:" + key, status="open", summary=summary, case=case))
+                    used.add(cid)
+                    ok = True
+                    break
+            if ok:
+                break
+        print("witness" if ok else "NO WITNESS", key)
+    out = os.environ.get("VERIF_C02_FINDINGS_OUT") or os.path.join(core.VERIF, "findings", "C02.json")
+    libs = {}
+    for f in findings:
+        c = f["case"]
+        c["lib"] = "natgen-%d" % c["libseed"]
+        if c["lib"] not in libs:
+            tmp = ctx.casedir("store-" + c["lib"])
+            natgen.generate(random.Random(c["libseed"]), "liba", n_classes=c.get("n_classes")).write(tmp)
+            libs[c["lib"]] = libgen.read_files(tmp)
+    json.dump(dict(findings=findings, libs=libs), open(out, "w"), indent=1)
+    shutil.rmtree(chk.work, ignore_errors=True)
+    print(len(findings), "findings,", len({(f["case"]["libseed"], f["case"]["cfg"]) for f in findings}), "libraries")
+
+
+if __name__ == "__main__":
+    if len(sys.argv) > 1 and sys.argv[1] == "regen":
+        regen([int(x) for x in sys.argv[2:]] or list(range(1, 25)))
